@@ -369,9 +369,50 @@ fn minimal_history(hist: &[Case], c: &Case) -> Vec<Case> {
     }
 }
 
+/// scale probe: nodes with very many (or no) output buffers: every Input must expose exactly the
+/// neighbour's buffer slice (same address, same length)
+fn bufcount_case(counts: &[usize]) -> Option<(String, String)> {
+    let log = Rc::new(RefCell::new(Vec::new()));
+    let call = Rc::new(RefCell::new(1u32));
+    let mut g = G1::with_capacity(counts.len(), 8);
+    let ix: Vec<NodeIndex> = counts
+        .iter()
+        .enumerate()
+        .map(|(i, &k)| g.add_node(NodeData::new(ProbeNode { id: i, log: log.clone(), call: call.clone() }, vec![Buffer::SILENT; k])))
+        .collect();
+    // a chain plus a skip edge from the first to the last node
+    for i in 0..counts.len() - 1 {
+        g.add_edge(ix[i], ix[i + 1], ());
+    }
+    g.add_edge(ix[0], ix[counts.len() - 1], ());
+    let mut p = Processor::<G1>::with_capacity(counts.len());
+    let out = ix[counts.len() - 1];
+    if let Err(e) = catch(|| p.process(&mut g, out)) {
+        return Some(("graph.panic".into(), format!("buffer counts {counts:?}: process panicked: {e}")));
+    }
+    let ptrs: Vec<(usize, usize)> = ix.iter().map(|&i| (g[i].buffers.as_ptr() as usize, g[i].buffers.len())).collect();
+    for r in log.borrow().iter() {
+        for &(pp, l, _, _) in &r.inputs {
+            // nodes without buffers all share the dangling empty-Vec address; match on length too
+            if !ptrs.iter().enumerate().any(|(m, &(q, ql))| m != r.node && q == pp && ql == l) {
+                return Some(("graph.inputs".into(), format!("buffer counts {counts:?}: node {} received an input of {l} buffers at an address/length that matches no neighbour's buffer slice {ptrs:?}", r.node)));
+            }
+        }
+        if r.inputs.len() != if r.node == 0 { 0 } else if r.node == counts.len() - 1 && counts.len() > 2 { 2 } else { 1 } {
+            return Some(("graph.inputs".into(), format!("buffer counts {counts:?}: node {} received {} inputs", r.node, r.inputs.len())));
+        }
+    }
+    None
+}
+
 fn main() {
     let ctx = Ctx::new("C09", "release");
     if let Some(v) = ctx.replay_case() {
+        if v["sys"] == "bufcount" {
+            let cs: Vec<usize> = v["counts"].as_array().map(|a| a.iter().map(|x| x.as_u64().unwrap_or(0) as usize).collect()).unwrap_or_default();
+            guard::enter(&v.to_string());
+            ctx.finish_replay(bufcount_case(&cs).map(|e| e.1));
+        }
         let c = Case::from_json(&v).unwrap_or_else(|| {
             eprintln!("bad C09 case");
             std::process::exit(2)
@@ -380,7 +421,7 @@ fn main() {
         let hist: Vec<Case> = v["history"].as_array().map(|a| a.iter().filter_map(Case::from_json).collect()).unwrap_or_default();
         ctx.finish_replay(run_with_history(&hist, &c));
     }
-    ctx.rule("every directed multigraph on n<=3 nodes with multiplicity 0..2 per ordered pair (self pairs included), every digraph with loops on 4 nodes (thorough: every loop-free digraph on 5 nodes) x every output node x container in {Graph, StableGraph, StableGraph with vacancies before/between/after/all (dummy nodes wired in and removed)} x 2 consecutive process calls (60 for the scale-probe graphs) on a processor reused across a whole chunk of the enumeration (256 graphs x outputs x containers; a violation's replay artefact carries the shortest suffix of that history with which it reproduces on a fresh processor); instrumented nodes log (node, call, own buffer ptr, per input ptr/len/value/call#); oracle: independent reverse reachability, multiset of in-edges by buffer identity, no self-alias, topological order and functional evaluation when the upstream subgraph is acyclic, sources()/sinks() == existing nodes without in/out edges; plus scale probes: 12 structured families (chains, stars, rings, complete DAG / digraph, tree, double edges, ...) on 5..=9 nodes; non-trivial = at least one edge, distinct by (graph, output, container)");
+    ctx.rule("every directed multigraph on n<=3 nodes with multiplicity 0..2 per ordered pair (self pairs included), every digraph with loops on 4 nodes (thorough: every loop-free digraph on 5 nodes) x every output node x container in {Graph, StableGraph, StableGraph with vacancies before/between/after/all (dummy nodes wired in and removed)} x 2 consecutive process calls (60 for the scale-probe graphs) on a processor reused across a whole chunk of the enumeration (256 graphs x outputs x containers; a violation's replay artefact carries the shortest suffix of that history with which it reproduces on a fresh processor); instrumented nodes log (node, call, own buffer ptr, per input ptr/len/value/call#); oracle: independent reverse reachability, multiset of in-edges by buffer identity, no self-alias, topological order and functional evaluation when the upstream subgraph is acyclic, sources()/sinks() == existing nodes without in/out edges; plus scale probes: nodes with 0, 1, 2, 255, 256, 257 and 1000 output buffers in every combination on a 3-node graph; 12 structured families (chains, stars, rings, complete DAG / digraph, tree, double edges, ...) on 5..=9 nodes; non-trivial = at least one edge, distinct by (graph, output, container)");
     // enumerate
     let mut graphs: Vec<(usize, Vec<u8>)> = Vec::new();
     for n in 1..=3usize {
@@ -479,6 +520,21 @@ fn main() {
         ctx.observe_many(fps);
         guard::leave();
     });
+    // scale probes: buffer counts per node
+    let counts = [0usize, 1, 2, 255, 256, 257, 1000];
+    for &a in &counts {
+        for &b in &counts {
+            for &c in &counts {
+                let cs = [a, b, c];
+                let case = json!({"sys":"bufcount","counts":cs});
+                guard::enter(&case.to_string());
+                evals.fetch_add(1, Relaxed);
+                if let Some((k, m)) = bufcount_case(&cs) {
+                    ctx.violation(&k, case, m, Some(&|| bufcount_case(&cs).map(|e| e.1)));
+                }
+            }
+        }
+    }
     ctx.add_evals(evals.load(Relaxed));
     ctx.set("process_calls", json!(calls.load(Relaxed)));
     ctx.set("exhaustive", json!(true));
